@@ -507,6 +507,25 @@ def main():
                         break
                 log(f"neighbourhood search: {len(vs)} variants, failing input {'found' if failing else 'not found'}")
 
+    # the tie of everything this property's theorems rest on: run the dependency families too (field layer under the
+    # point layer, scalar layer under the scalar multiplications); a disagreement or an oracle mismatch there breaks the tie
+    dep_bad = []
+    if not failing:
+        for dep in cfg.get("deps", []):
+            sd, fdep, ddep, _ = run_generated(dep, tier, seed, st, log, 1)
+            stats["lines"] += sd["lines"]
+            stats["cases"] += sd["cases"]
+            if fdep or ddep:
+                r = (fdep or ddep)[0][0]
+                what = [repr(m) for m in fdep[0][1]][:3] if fdep else [f"line {d[0]}: {d[1]} | impl: {d[2][:200]} | model: {d[3][:200]}" for d in ddep[0][1][:3]]
+                dep_bad.append((dep, r, what))
+                break
+    if dep_bad and not failing:
+        dep, r, what = dep_bad[0]
+        obj = replay_obj(pid, "no-failing-input-found", r, what,
+                         broken + [f"dependency {dep} of {pid}: the operations the {pid} theorems rest on no longer match the model/specification"], seed, st)
+        path = write_replay(pid, obj)
+        violations.append(("no-failing-input-found", path, f"dependency {dep}: {what[0][:300]}"))
     if failing:
         r, rel = failing[0]
         small = minimise_failure(pid, r, rel, st)
@@ -515,7 +534,7 @@ def main():
         obj["minimised_lines"] = small
         path = write_replay(pid, obj)
         violations.append(("failing-input", path, repr(rel[0])))
-    elif disagreeing or broken:
+    elif (disagreeing or broken) and not dep_bad:
         r = disagreeing[0][0] if disagreeing else None
         det = [f"line {d[0]}: {d[1]} | impl: {d[2][:300]} | model: {d[3][:300]}" for d in (disagreeing[0][1][:5] if disagreeing else [])]
         names = list(broken)
